@@ -404,6 +404,31 @@ func (c *checker) roundTrip(g *gridValue, codec string) {
 			fmt.Sprintf("two encodings of %s differ: %x vs %x", descString(g.Desc), clip(e1), clip(e2)))
 		return
 	}
+	// a time leaf in a location other than UTC: the value that denotes the same
+	// instant in UTC (and equals this one everywhere else) must have the very
+	// same encoding — and, for a header, the same hash
+	if p := g.Desc.Path; p != "" && g.Kind[p] == "time" && g.Desc.Alt >= 0 && g.Desc.Alt < len(timeTwin) && timeTwin[g.Desc.Alt] >= 0 {
+		tw, _ := g.Root.make(g.base, p, timeTwin[g.Desc.Alt])
+		et, ot := enc(tw.iface())
+		if !ot.Panicked && !bytes.Equal(e1, et) {
+			c.report(map[string]string{"phase": "roundtrip", "codec": codec, "kind": "encoding-depends-on-time-zone", "shape": "time/non-utc-location"}, k,
+				fmt.Sprintf("%s: the %s encodings of one instant (%s) given in %s and in UTC differ: %s vs %s", descString(g.Desc), codec, showLeaf(walkTo(g.V, p)), walkTo(g.V, p).Interface().(time.Time).Location(), clipS(clip(e1)), clipS(clip(et))))
+			c.classes.Add("roundtrip/" + codec + "/encoding-depends-on-time-zone")
+			return
+		}
+		if ha, ok := v.(*types.Header); ok && codec == "bin" {
+			hb := tw.iface().(*types.Header)
+			var x, y []byte
+			pa, _, _ := tryFast(func() { x = ha.Hash() })
+			pb, _, _ := tryFast(func() { y = hb.Hash() })
+			if !pa && !pb && !bytes.Equal(x, y) {
+				c.report(map[string]string{"phase": "roundtrip", "codec": "hash", "kind": "hash-depends-on-time-zone", "shape": "time/non-utc-location"}, k,
+					fmt.Sprintf("%s: Header.Hash differs between one instant given in %s and in UTC: %x vs %x", descString(g.Desc), ha.Time.Location(), x, y))
+				return
+			}
+			c.classes.Add("roundtrip/hash/same-instant-same-header-hash/" + g.Shape[p])
+		}
+	}
 	fam := c.famByNm[g.Root.Family]
 	limits := []int{0}
 	if codec == "bin" {
